@@ -2,10 +2,29 @@ package simrt
 
 import (
 	"fmt"
+	"io"
 	"log"
 	"runtime"
+	"runtime/pprof"
 	"sync"
 )
+
+// StartCPUProfile / StopCPUProfile replace runtime/pprof's: under the simulator
+// the profile is a one-line stub written to w (the real profiler starts a
+// goroutine and uses signals, which have no place in a bubble).
+func StartCPUProfile(w io.Writer) error {
+	if mode.Load() == ModeSerial {
+		_, err := io.WriteString(w, "knutsim: cpu profile stub\n")
+		return err
+	}
+	return pprof.StartCPUProfile(w)
+}
+
+func StopCPUProfile() {
+	if mode.Load() != ModeSerial {
+		pprof.StopCPUProfile()
+	}
+}
 
 // GOMAXPROCS and NumCPU replace the runtime functions: under the simulator the
 // degree of parallelism a program asks about is the run's Workers knob.
